@@ -94,6 +94,40 @@ def ws_requests(name, args, after):
     return {}
 
 
+def reads_request(name, a):
+    """(request line, {model array name: actual numpy array}) for the read-footprint model, or None"""
+    if name in ("dynamical_matrices_with_dd_openmp_over_qpoints", "derivative_dynmat"):
+        fc, svecs, multi, s2p, p2s = (a[2], a[3], a[4], a[7], a[8]) if name.startswith("dyn") else (a[1], a[5], a[6], a[8], a[9])
+        np_, ns = p2s.shape[0], s2p.shape[0]
+        return ("reads dynmat %d %d %d %d %s %s %s" % (np_, ns, fc.shape[0], svecs.shape[0], ints(p2s), ints(s2p), ints(multi)),
+                {"fc": fc, "multi": multi, "svecs": svecs})
+    if name == "transform_dynmat_to_fc":
+        fc, dm, comm, svecs, multi, masses, s2pp, fim = a[:8]
+        ns, np_ = multi.shape[0], multi.shape[1]
+        return [("reads dynmat %d %d %d %d %s %s %s" % (np_, ns, fc.shape[0], svecs.shape[0], ints(fim), ints(s2pp), ints(multi)),
+                 {"fc": fc, "multi": multi, "svecs": svecs}),
+                ("reads d2f %d %d %d %s" % (np_, ns, comm.shape[0], ints(s2pp)), {"dm": dm, "masses": masses})]
+    if name == "tetrahedra_frequencies":
+        ft, gps, mesh, ga, gpir, rga, fr = a
+        return ("reads tetra_freqs %d %d %d %d %d %d %s %s" % (len(gps), fr.shape[1], ga.shape[0], fr.shape[0], len(gpir), int(np.prod(mesh)), ints(gps), ints(gpir)),
+                {"grid_address": ga, "gp_ir_index": gpir, "frequencies": fr})
+    if name == "tetrahedron_method_dos":
+        dos, mesh, fpts, fr, coef, ga, gmt, rga = a
+        return ("reads dos %d %d %d %d %d %d %d %s" % (ga.shape[0], fr.shape[0], fr.shape[1], len(fpts), coef.shape[1], len(gmt), int(np.prod(mesh)), ints(gmt)),
+                {"frequencies": fr, "coef": coef, "grid_mapping_table": gmt})
+    if name == "distribute_fc2":
+        fc2, al, fi, rc, perms, ma, ms = a
+        return ("reads distribute_fc2 %d %d %d %d %s %s %s %s %s" % (perms.shape[1], perms.shape[0], len(al), fc2.shape[0], ints(al), ints(fi), ints(ma), ints(ms), ints(perms)),
+                {"permutations": perms, "fc2": fc2, "map_atoms": ma})
+    if name in ("perm_trans_symmetrize_compact_fc", "transpose_compact_fc"):
+        fc, perms, s2pp, p2s, nsym = a[:5]
+        return ("reads compact %d %d %d %s %s %s %s" % (fc.shape[0], fc.shape[1], perms.shape[0], ints(p2s), ints(s2pp), ints(nsym), ints(perms)),
+                {"permutations": perms, "fc": fc})
+    if name == "thermal_properties":
+        return ("reads thermal %d %d" % (a[2].shape[0], a[2].shape[1]), {"frequencies": a[2]})
+    return None
+
+
 def parse_ranges(line):
     s = set()
     if line in ("empty", ""):
